@@ -268,7 +268,7 @@ PROPS['C04'] = dict(
 )
 
 PROPS['C13'] = dict(
-    bin='c13', sources=['props/c13.cc'] + SIMSRC2, unit_objs=UNIT, images=IMGS, engine='rc',
+    bin='c13', sources=['props/c13.cc'] + SIMSRC2, unit_objs=UNIT + ['tun_bsd'], images=IMGS, engine='rc',
     quick=dict(workers=8, cases=6000, budget=40, min_nontrivial=200),
     thorough=dict(workers=16, cases=300000, budget=1200, min_nontrivial=10000),
     rule='case = REAL iodine client (-T NULL/PRIVATE/TXT/SRV/MX/CNAME/A or autodetect) against a scripted server (reference implementation of the '
@@ -279,10 +279,10 @@ PROPS['C13'] = dict(
          'embedded NUL; 1 in 8 replies are arbitrary bytes; 1 in 12 are benign (control: must produce exactly the two configuration commands). '
          'Oracle: every string given to system() is split on spaces; every word is one of the fixed words of a benign run, a strict dotted quad, or a '
          'decimal integer 201..1500; no control characters. non-trivial iff the login step was reached, the reply parses as four fields and >= 1 '
-         'field is not a plain valid value',
+         'field is not a plain valid value. 1 case in 3 is a unit case: tun_setip / tun_setmtu are called directly with generated address strings, prefix lengths and MTUs, in the Linux flavour and in a second build of tun.c with the BSD command templates (server address on the command line, route add net/prefix); same word oracle (plus quad/prefix)',
     engine_text='rapidcheck over choice tapes; simnet hosting the real iodine client; scripted server (refproto); system() observed at the shim',
-    bounds='login replies <= 400 bytes; Linux command templates (the harness builds with -DLINUX)', trusted_base=TB_SIM,
-    assumptions=AS_SIM + ['only the Linux branch of tun_setip/tun_setmtu is compiled (BSD/Windows command lines are not exercised)'],
+    bounds='login replies <= 400 bytes', trusted_base=TB_SIM + ['vbuild.py compiles tun.c a second time with -DFREEBSD (objcopy-renamed bsd_tun_setip / bsd_tun_setmtu)'],
+    assumptions=AS_SIM + ['system cases run the Linux build of the client; the BSD command templates (server address on the command line, route add) are exercised at unit level only; Windows and Darwin branches are not compiled'],
 )
 
 PROPS['C10'] = dict(
